@@ -34,6 +34,9 @@ CHECKS = {
  "C17": dict(text="Seeded search (degenerate use of the simulator: one core, no schedule, no fault): loop nests with tagged effect ops, allocations, dim/subview/affine.min sizes are compiled with pipeline-canonicalize-for and/or reuse-memref-allocs; original and transformed function are executed under seeded runtime bounds and shapes and their traces of (op, evaluated index operands, allocation site / offsets / sizes of memref operands) must be identical; static SSA dominance of the output. Two genuine defects enshrined in upstream expectations are recorded as known findings KF-C17-1/2; a third (ub // step) was repaired in /repo.",
               note="No interleaving or fault enters this property (evidence reports distinct_interleavings = 1); trusts the interpreter; bounds: depth <= 3, constant bounds <= 8, dynamic bounds <= 5. Known-finding triggers mask effect-trace mismatches only in programs containing an imperfect constant-bound nest (KF-C17-1) or alloc(dim(subview[affine.min])) (KF-C17-2).",
               tech="deterministic simulation of original vs restructured loop nest on one core; effect-trace equality (no schedule/fault dimension)", ref="5 C17"),
+ "C05": dict(text="Seeded search (degenerate use of the simulator: one core, no interleaving; the only injected nondeterminism is buffer placement and the row order of 2-D DMA transfers): a memref.copy between two seeded layouts is lowered by snax-copy-to-dma and executed on a byte-addressed memory with the runtime's DMA semantics; every DMA byte is checked online against the source/destination footprints and afterwards every logical element must sit at the address an independent layout oracle assigns to it.",
+              note="Trusts the DMA model (A7, snax_rt.h) and the layout oracle written from ir/tsl/README.md; dynamic TSL steps follow A8; <= 512 elements, rank <= 4, tile depth <= 3; layouts are injective and source/destination disjoint by construction.",
+              tech="deterministic simulation of the emitted DMA loop nest on a byte memory with footprint shadows; seeded placement and burst order (no schedule/fault dimension)", ref="5 C05"),
  "C06": dict(text="Seeded search as C01 with the subject accfg-config-overlap applied to traced / deduplicated programs, compared against its own input only on environments where that input was right and its state links truthful; also static SSA dominance and run-time undefined-value detection. One genuine defect is recorded as known finding KF-C06-1.",
               note="As C01; large latencies make moved setups execute inside the accelerator's busy window (probe setup-while-busy); known finding KF-C06-1 masks launch-snapshot mismatches only in programs whose loop body has two setups of one accelerator followed by a later setup of it, with dedup before overlap.",
               tech="deterministic simulation (reference vs overlapped program) with seeded clobber/latency faults; history refinement + dominance oracle", ref="5 C06"),
